@@ -213,6 +213,14 @@ def correspond(ctx, scale):
                                      'case': dict(cls=cls, n=n, cutoff=c, m=m, seed=seed, image=False, train=True, expect_drop=True)})
                     continue
                 add_case(cls, n, c, m, seed, False, flags, problems)
+                # the depth depends on the seed ONLY: the same seed again on this long-lived instance (back to back, and after an eval call)
+                if seed % 7 == 0:
+                    for rep in range(2):
+                        if rep == 1:
+                            run_one(q, cls, n, seed, False, train=False)
+                        flags, problems = run_one(q, cls, n, seed, False)
+                        add_case(cls, n, c, m, seed, False, flags, problems)
+                        dist['repeated_seed_same_instance'] = dist.get('repeated_seed_same_instance', 0) + 1
             # eval mode: nothing dropped
             for seed in (0, 1, 2, 3):
                 flags, problems = run_one(q, cls, n, seed, False, train=False)
